@@ -85,6 +85,11 @@ def answer (st : St) (op impl : String) : St × String × Option String :=
       | _ => "ok <signature>", none)
   | ["txn", _, orig, mutd] =>
     (st, if orig == mutd then "accept" else (if impl.startsWith "reject" then impl else "reject"), none)
+  | ["genesis", p, s, z] =>
+    let (st, rcv) := recoverCached st s z
+    (st, (match Sky.C14.verifyPubKeySignedHashWith rcv (h p) (h s) with
+          | .ok _ => "accept"
+          | _ => "reject init"), none)
   | ["reset"] => (st, "ok", none)
   | ["mkblock", _] => (st, (if impl.startsWith "ok " then impl else "ok <block>"), none)
   | ["blockexec", mutd] =>
